@@ -141,3 +141,30 @@ Example li_fixed_dump :
   strip_fixed (fst (build li_decls li_links)) li_cfg
   = VMap [(sU, VInt 7); (sCS, VList [VMap [(class_path, VStr sBase); (init_args, VMap [(sP, VInt 1)])]])].
 Proof. vm_compute. reflexivity. Qed.
+
+(* ------------------------------------------------------------------ finding skipped-link-target-stripped
+   --c Base, --d Base; link_arguments("c.init_args.q", "d.init_args.l"); --c=c15mod.Lst (Lst takes no q: the link is
+   skipped) --d={"class_path": "c15mod.Lst", "init_args": {"l": []}}: the parse keeps l == [], the dump drops it. *)
+Definition sC : str := [99]%N.  Definition sD : str := [100]%N.  Definition sL : str := [108]%N.
+Definition sLst : str := [99;49;53;109;111;100;46;76;115;116]%N.   (* "c15mod.Lst" *)
+Definition sk_classes : list cls :=
+  li_classes ++ [{| c_name := sLst; c_params := [(sP, TInt, Some (VInt 3)); (sL, TListInt, Some (VList [VInt 7]))] |}].
+Definition sk_decls : list decl :=
+  [{| d_key := [sC]; d_kind := KClass; d_default := VNone; d_required := false |};
+   {| d_key := [sD]; d_kind := KClass; d_default := VNone; d_required := false |}].
+Definition sk_links : list link := [{| l_src := [[sC; init_args; sQ]]; l_tgt := [sD; init_args; sL]; l_fn := None |}].
+Definition sk_obj (l : list val) : val := VMap [(class_path, VStr sLst); (init_args, VMap [(sP, VInt 3); (sL, VList l)])].
+Definition sk_cfg : val := VMap [(sC, sk_obj [VInt 7]); (sD, sk_obj [])].
+
+Lemma skipped_refuted :
+  exists classes ds ls pre cfg a v,
+    finish wfn classes (fst (build ds ls)) pre = Ok cfg /\ In a (p_links (fst (build ds ls))) /\
+    overlap_free (map al_link (p_links (fst (build ds ls)))) = true /\
+    skipped_target_present (p_links (fst (build ds ls))) cfg = true /\
+    mapM (get cfg) (al_src a) = None /\ get cfg (al_tgt a) = Some v /\
+    get (strip (fst (build ds ls)) cfg) (al_tgt a) = None.
+Proof.
+  exists sk_classes, sk_decls, sk_links, sk_cfg, sk_cfg. eexists. exists (VList []).
+  split; [vm_compute; reflexivity|]. split; [vm_compute; left; reflexivity|].
+  repeat split; vm_compute; reflexivity.
+Qed.
